@@ -617,6 +617,29 @@ def only_closure(prog, body):
     return cl[0]
 
 
+def const_text(prog, body, e):
+    """the constant text an expression evaluates to (string/byte literal, format! without run-time arguments, and
+    as_bytes()/as_str() views of those), or None"""
+    x = peel(e)
+    if x[0] == 'bytes':
+        try:
+            return x[1].decode('utf-8')
+        except UnicodeDecodeError:
+            return None
+    if x[0] == 'str':
+        return x[1]
+    sv = string_values(prog, body, e)
+    if sv is not None and len(sv) == 1:
+        return list(sv)[0]
+    return None
+
+
+def header_writes(prog, body, text):
+    """write_all calls outside loops whose argument is the constant `text`"""
+    return [c for c in body.calls if mir.method_name(c.name) == 'write_all' and body.loop_depth(c.bb) == 0 and len(c.args) == 2 and
+            const_text(prog, body, body.op_expr(c.args[1])) == text]
+
+
 def rpo(body):
     """reverse post-order of the reachable non-cleanup CFG"""
     seen = set()
